@@ -289,7 +289,7 @@ def c15(ctx):
              and any(c_ in cg.reach(p_) for c_ in cl)]
     outer = [p_ for p_ in cands if not any(p_ in cg.reach(o_) for o_ in cands if o_ != p_)]
     modefn = (outer or cands or [views.reflink_mode_fn(fx)])[0]
-    f = views.view(fx, modefn, depth=6) if modefn else None
+    f = views.view(fx, modefn, depth=9) if modefn else None
     if f is None:
         obs.append(anchor_ob("R-TABLE", "a libxcp function that branches on Config.reflink"))
         ctx.add(obs)
@@ -382,7 +382,7 @@ def c15(ctx):
                         if c in fx.fns and c != modefn and ro.performers(fx, fx.fns[c], DATA_COPY) and c not in seen]
                 if subs:
                     for c in subs:
-                        gated_copies(lab, views.view(fx, c, depth=6), depth + 1, seen | {c})
+                        gated_copies(lab, views.view(fx, c, depth=9), depth + 1, seen | {c})
                     continue
             nhosts += 1
             obs.append(Ob("R-ORDER", mkkey("R-ORDER", lab, q.names(t)[0] or "?", n2, "after-clone-attempt:%d" % depth), ok,
@@ -866,7 +866,7 @@ def copy_hosts(fx):
                 if g is None or c in seen or c in stop or g.crate != "libxcp":
                     continue
                 seen.add(c)
-                rec(lab + "/" + ("closure" if g.is_closure else "helper"), views.view(fx, c, depth=6), d + 1)
+                rec(lab + "/" + ("closure" if g.is_closure else "helper"), views.view(fx, c, depth=9), d + 1)
     for lab, w in views.workers(fx):
         rec(lab, w, 0)
     return out
@@ -1027,13 +1027,13 @@ def truncate_then_size(fx):
                     aggs.append(bi)
                     seen_sites.add((s_["span"]["file"], s_["span"]["line"]))
         for what, blocks, nm in (("a truncating File::create", creates, FILE_CREATE), ("the pre-sizing ftruncate", sizes, FTRUNCATE)):
-            ok = bool(blocks) and all(any(cfg.dominates(b_, o) for b_ in blocks) for o in aggs)
+            ok = bool(blocks) and all(cfg.set_dominates(blocks, o) for o in aggs)
             obs.append(Ob("R-ORDER", mkkey("R-ORDER", lab, nm, 0, "before-handle"), ok, f.loc(), lab,
                           "every CopyHandle is built after %s: %s" % (what, ok),
                           None if ok else dict(performers=blocks, handle_blocks=aggs)))
         # the sizing follows the open on every path (the open truncates, the ftruncate then extends)
-        ok = bool(creates) and bool(sizes) and all(any(cfg.dominates(c, s_) for c in creates) for s_ in sizes if any(
-            cfg.dominates(s_, a_) for a_ in aggs))
+        ok = bool(creates) and bool(sizes) and all(cfg.set_dominates(creates, s_) for s_ in sizes if any(
+            a_ in cfg.reach([s_]) for a_ in aggs))
         obs.append(Ob("R-ORDER", mkkey("R-ORDER", lab, FTRUNCATE, 0, "after-create"), ok, f.loc(), lab,
                       "the destination is sized after it was opened/truncated: %s" % ok))
     # every construction site of the handle in libxcp is one of those
@@ -1128,7 +1128,7 @@ def c12(ctx):
         obs.append(anchor_ob("R-ORDER", "walker sends Size and builds Operation::Copy"))
     for n, (cb, cs) in enumerate(copies):
         cloc = "%s:%d" % (cs["span"]["file"], cs["span"]["line"])
-        ok = any(cfg.dominates(sb, cb) and sb != cb for sb, st, sa in sizes)
+        ok = bool(sizes) and cfg.set_dominates([sb for sb, st, sa in sizes if sb != cb], cb)
         obs.append(Ob("R-ORDER", mkkey("R-ORDER", WALKER, "Size-before-Copy", n), ok, cloc, WALKER,
                       "the Size update is sent before the Copy operation is built (and so before it is queued): %s" % ok,
                       None if ok else dict(copy="bb%d" % cb, sizes=["bb%d" % x[0] for x in sizes])))
@@ -1219,7 +1219,7 @@ def c16(ctx):
     runs = all(any(DRIVER_COPY in q.callgraph(fx).reach(fv) for fv in t["fn"].get("fnvals", [])) for bi, t in sp)
     obs.append(Ob("R-WHO", mkkey("R-WHO", MAIN, SPAWN, 0, "runs-driver"), runs, q.loc_of(sp[0][1]), MAIN,
                   "the spawned closure is what runs CopyDriver::copy: %s" % runs))
-    prefix = [b for b in cfg.reachable() if not any(cfg.dominates(sb, b) for sb in sbs)]
+    prefix = [b for b in cfg.reachable() if not cfg.set_dominates(sbs, b)]
     forb = set(MUTATING) | {DRIVER_COPY}
     obs += region_forbids_view(fx, m, prefix, forb, "R-WHO",
                                "nothing before the copy starts may touch the filesystem", "main-prefix")
